@@ -1512,4 +1512,9 @@ impl WhoAreYouRef {
     pub fn message_nonce(&self) -> MessageNonce {
         self.1
     }
+
+    /// Verification hook: a query as the handler would issue it (scripted service).
+    pub fn verif_new(node_address: NodeAddress, message_nonce: MessageNonce) -> Self {
+        WhoAreYouRef(node_address, message_nonce)
+    }
 }
